@@ -101,7 +101,8 @@ contract(
     modifies=[L_],
     ensures={"sets-the-override": "key in %s and %s[key] == val" % (L_, L_), "only-that-key": SAME_EXCEPT1,
              "shared-layer-untouched": "%s == old(%s)" % (G_, G_)},
-    notes="ASSUMED for Env.swap: the value is valid for the variable (no conversion) and the variable has no `sync` partner",
+    notes="ASSUMED at Env.swap's call sites: the value is valid for the variable (no conversion) and the variable has no `sync` partner - under exactly these two "
+          "conditions the clauses are PROVED on the real function (contract Env._set_item#strong)",
 )
 contract(
     E + "Env._del_item", "C11", verify=False, variant_id="assumed",
@@ -110,7 +111,8 @@ contract(
     modifies=[L_],
     ensures={"removes-the-override": "key not in %s" % L_, "only-that-key": SAME_EXCEPT1,
              "shared-layer-untouched": "%s == old(%s)" % (G_, G_)},
-    notes="ASSUMED for Env.swap: the variable is still known at exit (in a layer or registered), so no KeyError",
+    notes="ASSUMED at Env.swap's call sites: the variable is still known at exit (in a layer or registered), so no KeyError - under this condition the clauses are "
+          "PROVED on the real function (contract Env._del_item#strong)",
 )
 
 
@@ -231,4 +233,32 @@ contract(
     raises={"KeyError": "not " + PRESENT.replace("KEY", "key"), "Exception+": True},
     raises_iff=["KeyError"],
     from_property="A masked variable is absent from all of those views at once (`[]` raises KeyError exactly when `in` is False)",
+)
+
+
+# ---- the stronger view of the two mutators that Env.swap relies on, VERIFIED on the real functions under its two side conditions ----
+NOSYNC = "not (key in self._vars and self._vars[key].sync is not None and self._vars[key].sync != '')"
+contract(
+    E + "Env._set_item", "C11", shards=2, variant_id="strong", params=dict(self=ENV2, key=Str, val=VAL, thread_local=Bool, check_sync=Bool), globals=SENT,
+    externals=MUT_EXT, variant="1 if check_sync else 0",
+    requires={"thread-local-mode": "thread_local", "sentinels-are-distinct": SENT_DISTINCT,
+              "the-value-is-valid-for-the-variable": "val == DELETE_VAR or valid(self.get_validator(key), val)",
+              "no-mirroring-into-os.environ": 'not mirror("UPDATE_OS_ENVIRON")',
+              "the-variable-has-no-sync-partner": NOSYNC},
+    modifies=[L_, "self._detyped"],
+    abstract=[dict(line_contains="pat_name = self._find_var_pattern_name(key)", may_raise=True, reason="error message for a failed conversion")],
+    ensures={"sets-the-override": "key in %s and %s[key] == val" % (L_, L_), "only-that-key": SAME_EXCEPT1, "shared-layer-untouched": "%s == old(%s)" % (G_, G_)},
+    from_property="the clauses Env.swap assumes of _set_item, proved for a valid value of a variable without a sync partner",
+)
+MUT_EXT_CHAIN = dict(MUT_EXT)
+MUT_EXT_CHAIN["InternalEnvironDict.__contains__"] = Ext(ret=Bool, ensures=["result == (a0 in recv._local or a0 in recv._global)"],
+                                                        note="ChainMap lookup over [thread layer, shared layer] (ASSUMED semantics of collections.ChainMap)")
+contract(
+    E + "Env._del_item", "C11", variant_id="strong", params=dict(self=ENV2, key=Str, thread_local=Bool), globals=SENT,
+    externals=MUT_EXT_CHAIN,
+    requires={"thread-local-mode": "thread_local", "no-mirroring-into-os.environ": 'not mirror("UPDATE_OS_ENVIRON")',
+              "the-variable-is-still-known": "key in %s or key in %s or key in self._vars" % (L_, G_)},
+    modifies=[L_, "self._detyped"],
+    ensures={"removes-the-override": "key not in %s" % L_, "only-that-key": SAME_EXCEPT1, "shared-layer-untouched": "%s == old(%s)" % (G_, G_)},
+    from_property="the clauses Env.swap assumes of _del_item, proved for a variable that is still known",
 )
